@@ -1,12 +1,16 @@
 #!/bin/bash
 # Offline setup: warm the Go build cache by building every engine once (hooks on, -race).
+# Each check rebuilds its own engine anyway (./check), so a failing build here is reported
+# but does not fail the setup: an engine that is still under construction must not block
+# the checks of the others.
 set -u
 export GOFLAGS=-mod=mod GOPROXY=off
 cd /verif/harness || exit 1
 mkdir -p /verif/bin /verif/run /verif/evidence /verif/replay
-rc=0
 for d in cmd/*/; do
   e=$(basename "$d")
-  go build -race -tags verif -o "/verif/bin/$e" "./cmd/$e" || rc=1
+  if ! go build -race -tags verif -o "/verif/bin/$e" "./cmd/$e" 2>"/verif/run/setup.$e.log"; then
+    echo "setup: engine $e did not build (see /verif/run/setup.$e.log)" >&2
+  fi
 done
-exit $rc
+exit 0
